@@ -450,19 +450,40 @@ def check_hash_type(cx, rep):
     fw = cx.fw(f)
     tm = cx.gm.terms_of(fw)
     t = tm.block_value_term(f.block, 0)
-    # HashType::from(if is_ref { parse2(quote!(&'static #ty)) } else { ty.clone() }) with (ty, is_ref) = dereference_changed(ty)
+    # HashType::from(if is_ref { match <written lifetime of ty> { Some(l) => parse2(quote!(&#l #ty)), None => parse2(quote!(&'static #ty)) } }
+    #                else { ty.clone() })   with (ty, is_ref) = dereference_changed(ty)
     dc = ('call', 'crate::common::r#type::dereference_changed', ('param', 'ty'))
+    from ..terms import subterms as _st
     ok = False
+    why = 'the type key is no longer "token string of the type; a reference keeps its written lifetime and is `&\'static` only without one"'
+
+    def tmpl_of(x):
+        if isinstance(x, tuple) and x[0] == 'unwrap' and isinstance(x[1], tuple) and x[1][0] == 'call' and str(x[1][1]).endswith('parse2') and x[1][2][0] == 'tmpl':
+            for t2 in cx.gm.templates:
+                if id(t2.mac) == x[1][2][1]:
+                    return t2
+        return None
     if isinstance(t, tuple) and t[0] == 'call' and str(t[1]).endswith('HashType::from') and isinstance(t[2], tuple) and t[2][0] == 'ite':
         c, a, b = t[2][1], t[2][2], t[2][3]
-        if c == ('proj', 1, dc) and b == ('proj', 0, dc) and isinstance(a, tuple) and a[0] == 'unwrap' and a[1][0] == 'call' and str(a[1][1]).endswith('parse2') and a[1][2][0] == 'tmpl':
-            for t2 in cx.gm.templates:
-                if id(t2.mac) == a[1][2][1] and t2.text().replace(' ', '') == "&'static#ty" and t2.hole_term('ty') == ('proj', 0, dc):
-                    ok = True
+        if c == ('proj', 1, dc) and b == ('proj', 0, dc):
+            ta = tmpl_of(a)
+            if ta is not None and ta.text().replace(' ', '') == "&'static#ty":
+                why = 'every reference type is keyed (and emitted) as `&\'static T`, also when the attribute or the field names another lifetime: `Into(&\'a str)` yields `impl Into<&\'static str>`'
+            if isinstance(a, tuple) and a[0] == 'iflet' and a[1].startswith('Some('):
+                L, A, B = a[2], tmpl_of(a[3]), tmpl_of(a[4])
+                lt_of_param = any(isinstance(x, tuple) and x[0] == 'field' and x[2] == 'lifetime' and isinstance(x[1], tuple) and x[1][0] == 'payload'
+                                  and x[1][1] == 'Type::Reference' and x[1][3] == ('param', 'ty') for x in _st(L))
+                if lt_of_param and A is not None and B is not None and B.text().replace(' ', '') == "&'static#ty" and B.hole_term('ty') == ('proj', 0, dc):
+                    txt = A.text().replace(' ', '')
+                    hs = [h for h in A.holes if h != 'ty']
+                    if len(hs) == 1 and txt == '&#%s#ty' % hs[0] and A.hole_term('ty') == ('proj', 0, dc):
+                        ht = A.hole_term(hs[0])
+                        if any(x == L for x in _st(ht)) or ht == ('payload', 'Some', 0, L):
+                            ok = True
     if ok:
         rep.ok('SUM-INTO', f.qname + '|normalised type key', {'helper': f.qname})
     else:
-        rep.bad('SUM-INTO', f.qname, 'to_hash_type', 'the type key is no longer "token string of the type, references normalised to &\'static"', f.file, f.line)
+        rep.bad('SUM-INTO', f.qname, 'to_hash_type', why, f.file, f.line)
     # HashType equality / ordering by the string only
     for name in ('eq', 'cmp', 'hash'):
         g = [x for x in cx.crate.fns if x.self_ty == 'HashType' and x.name == name]
